@@ -362,6 +362,12 @@ func c12Check(f *ast.File, comments map[ast.Stmt]*ast.CommentGroup) (sig, msg, t
 		return "gofmt-error|" + normMsg(err.Error()), "gofmt rejects the printed text: " + err.Error(), text
 	}
 	if string(formatted) != text {
+		if gofmtOutputBroken(formatted) {
+			// go/format is the oracle of canonical form only while its own output is Go: stock gofmt
+			// strips the parentheses of `for (G[int]{} == v) {` (its isTypeName does not know
+			// instantiated types) and produces text that no longer parses
+			return "", "", text
+		}
 		a, b := firstDiff(text, string(formatted))
 		cls := fixClass(a, b)
 		if cls == "indentation" && comments != nil {
@@ -370,6 +376,12 @@ func c12Check(f *ast.File, comments map[ast.Stmt]*ast.CommentGroup) (sig, msg, t
 		return "not-fixpoint|" + cls, fmt.Sprintf("the printed text is not a gofmt fixed point:\n  printed: %q\n  gofmt:   %q", a, b), text
 	}
 	return "", "", text
+}
+
+// gofmtOutputBroken reports whether go/format turned parsable text into text that does not parse.
+func gofmtOutputBroken(formatted []byte) bool {
+	_, err := parser.ParseFile(token.NewFileSet(), "gofmt.go", formatted, parser.SkipObjectResolution)
+	return err != nil
 }
 
 func fixClass(a, b string) string {
@@ -473,7 +485,7 @@ func c12Built(src string) (sig, msg, text string, ok bool) {
 	if err != nil {
 		return "gofmt-error|" + normMsg(err.Error()), err.Error(), text, true
 	}
-	if string(formatted) != text {
+	if string(formatted) != text && !gofmtOutputBroken(formatted) {
 		a, b := firstDiff(text, string(formatted))
 		return "not-fixpoint|" + fixClass(a, b), fmt.Sprintf("the emitted file is not a gofmt fixed point:\n  emitted: %q\n  gofmt:   %q", a, b), text, true
 	}
